@@ -523,11 +523,16 @@ func shouldUseDigitPrefilter(re *syntax.Regexp, nfaSize int, config Config) bool
 	return isDigitLeadPattern(re)
 }
 
-// isDigitRunSkipSafe returns true if the pattern's leading digit class has a
-// greedy unbounded quantifier (\d+, \d*, \d{N,}). When true, on DFA failure
-// within a digit run, all other starting positions in the same run will also
-// fail — the greedy quantifier consumes to the same end-of-run regardless of
-// starting position, so the DFA reaches the same state at the same byte.
+// isDigitRunSkipSafe returns true if the pattern begins with the FULL digit class
+// under a greedy unbounded quantifier (\d+, [0-9]*, \d{N,}). When true, on DFA
+// failure within a digit run, all other starting positions in the same run will
+// also fail: from a later start the quantifier can stop at the same places (or
+// fewer), so whatever follows it is tried at a subset of the same positions.
+//
+// This needs the class to accept every byte of the run. A subset class does not:
+// in `[0-5]+x` on "695x" the attempt at '6' fails at once although a match
+// starts at '5' - the callers skip the whole [0-9] run, so such patterns must
+// verify every digit position.
 func isDigitRunSkipSafe(re *syntax.Regexp) bool {
 	if re == nil {
 		return false
@@ -544,20 +549,26 @@ func isDigitRunSkipSafe(re *syntax.Regexp) bool {
 		}
 		return isDigitRunSkipSafe(re.Sub[0])
 	case syntax.OpPlus, syntax.OpStar:
-		// + or * on a digit class: greedy unbounded → safe to skip
+		// + or * on the digit class: greedy unbounded → safe to skip
 		if len(re.Sub) == 1 && re.Sub[0].Op == syntax.OpCharClass {
-			return isDigitOnlyClass(re.Sub[0].Rune)
+			return isFullDigitClass(re.Sub[0].Rune)
 		}
 		return false
 	case syntax.OpRepeat:
 		// {N,} with no upper bound (Max == -1): greedy unbounded → safe
 		if re.Max == -1 && len(re.Sub) == 1 && re.Sub[0].Op == syntax.OpCharClass {
-			return isDigitOnlyClass(re.Sub[0].Rune)
+			return isFullDigitClass(re.Sub[0].Rune)
 		}
 		return false
 	default:
 		return false
 	}
+}
+
+// isFullDigitClass reports whether a character class is exactly [0-9]: the bytes
+// that make up the digit runs found by the digit prefilter.
+func isFullDigitClass(runes []rune) bool {
+	return len(runes) == 2 && runes[0] == '0' && runes[1] == '9'
 }
 
 // isSafeForReverseSuffix checks if a pattern is safe for UseReverseSuffix strategy.
